@@ -1157,6 +1157,13 @@ func Select(hasDefault bool, cases ...Case) int {
 // iteration; an un-owned source of nondeterminism would break replay).
 // With more than one key the reversed order is an environment deviation when
 // the scenario enabled map-order deviations.
+// MapZero returns the zero value of m's element type (it declares the value variable of a rewritten range statement
+// once for the whole loop, without naming the type).
+func MapZero[K comparable, V any](m map[K]V) V {
+	var z V
+	return z
+}
+
 func MapKeys[K comparable, V any](m map[K]V) []K {
 	keys := make([]K, 0, len(m))
 	for k := range m {
